@@ -535,6 +535,18 @@ def uident(min_size: int = 1, max_size: int = 6):
     return st.one_of(plain, plain, plain, mixed)
 
 
+# Letters whose casefold() is not their lower() (sharp s, capital sharp s, final sigma, long s, fi ligature, 'n):
+# classnames are keyed and looked up by casefold() everywhere (FGD.entities, EngineDB.get_ent), so these are legal.
+FOLD_ID = ['\xdf', '\u1e9e', '\u03c2', '\u017f', '\ufb01', '\u0149']
+
+
+def class_ident(min_size: int = 1, max_size: int = 8):
+    """Class names: uident, and about a fifth with a letter for which str.lower() != str.casefold()."""
+    foldy = st.tuples(gens.ident(1, 4), st.sampled_from(FOLD_ID), st.sampled_from(['', 'e', 'X', '_b'])).map(''.join)
+    base = uident(min_size, max_size)
+    return st.one_of(base, base.map(lambda x: x), foldy)
+
+
 def _non_ascii(s) -> bool:
     return isinstance(s, str) and not s.isascii()
 
@@ -672,7 +684,7 @@ def res_strategy(engine: bool):
 def ent_strategy(engine: bool):
     return st.fixed_dictionaries({
         'kind': st.integers(0, len(ENT_TYPES) - 1),
-        'name': uident(1, 8),
+        'name': class_ident(1, 8),
         'bases': st.lists(st.integers(0, 30), max_size=0 if engine else 3),
         'alias': st.booleans() if not engine else st.sampled_from([False, False, False, True]),
         'nobase': st.booleans(),          # engine format only: leave .bases empty instead of [_CBaseEntity_]
@@ -880,6 +892,8 @@ def build_resources(rd, names, engine: bool):
 def _name_labels(ed, classname: str, stats: Stats) -> None:
     if _non_ascii(classname):
         stats.labels.add('name:non_ascii_class')
+    if classname.lower() != classname.casefold():
+        stats.labels.add('name:class_casefold_not_lower')
     if any(_non_ascii(k['name']) for k in ed['kvs']):
         stats.labels.add('name:non_ascii_kv')
     if any(_non_ascii(d['name']) for d in ed['ins'] + ed['outs']):
@@ -1199,8 +1213,9 @@ def execute_binary(desc, ctx):
             ctx.check(isinstance(b, EntityDef), 'bases_resolved', f'{key}: base {b!r} left unresolved by get_fgd()')
     # the same bytes, looked up lazily in the requested order
     db2 = unserialise(io.BytesIO(data))
-    for key in order:
-        ent = db2.get_ent(key)
+    for j, key in enumerate(order):
+        # queried alternately by the casefolded key and by the class name as written (get_ent: any case)
+        ent = db2.get_ent(key if j % 2 == 0 else fgd.entities[key].classname)
         got = canon_ent_bin(ent)
         ctx.check(got == want[key], 'lazy_canon', f'{key}: get_ent() differs: {first_diff(want[key], got)}')
         for b in ent.bases:
@@ -1406,7 +1421,8 @@ SUBCHECKS = [
                   'long_with_space', 'long_with_newline', 'split', 'tagged_dup', 'flag_tags', 'choice_tags', 'alias',
                   'io_decays', 'io_valid', 'resources', 'res_tags', 'empty_tag_map', 'helper:unknown', 'helper:size', 'helper:frustum',
                   'empty_choice_name', 'default_needs_escape', 'default:numberlike',
-                  'default:numberlike_not_bare_safe', 'choice:numberlike', 'name:non_ascii_class', 'name:non_ascii_kv',
+                  'default:numberlike_not_bare_safe', 'choice:numberlike', 'name:non_ascii_class',
+                  'name:class_casefold_not_lower', 'name:non_ascii_kv',
                   'name:non_ascii_io', 'name:non_ascii_helper_arg', 'name:non_ascii_res_path', 'name:non_ascii_res_tag',
                   'helper_arg:default_exact', 'helper_arg:default_case_variant',
                   'helper_arg:omittable_default_case_variant', 'helper:unknown_kw', 'default:boolish_word')
@@ -1414,8 +1430,8 @@ SUBCHECKS = [
     Sub('binary', execute_binary, strategy=gen_bin_strategy, enumerate=binary_enumerate, quick=200, thorough=4000,
         quick_shards=8, floor=50, enum_counts_distinct=True,
         must_hit=('shipped_slice', 'generated', 'alias', 'nobase', 'kv_default', 'kv_readonly', 'flags', 'res_tags',
-                  'empty_tag_map', 'name:non_ascii_class', 'name:non_ascii_kv', 'name:non_ascii_io',
-                  'name:non_ascii_res_path', 'name:non_ascii_res_tag', 'kv_twin:ro', 'kv_twin:same', 'kv_twin:default',
+                  'empty_tag_map', 'name:non_ascii_class', 'name:class_casefold_not_lower', 'name:non_ascii_kv',
+                  'name:non_ascii_io', 'name:non_ascii_res_path', 'name:non_ascii_res_tag', 'kv_twin:ro', 'kv_twin:same', 'kv_twin:default',
                   'kv_twin:disp', 'kv_twin:type')),
     Sub('lazy', execute_lazy, strategy=lazy_strategy, quick=120, thorough=3000, quick_shards=8, floor=20,
         must_hit=('alias_before_base', 'then_full', 'repeat_query', 'via_api', 'lazy:second_database', 'twin_class_query',
